@@ -1333,8 +1333,12 @@ class SFTPUnknownPrincipal(SFTPError):
     def encode(self, version: int) -> bytes:
         """Encode an SFTPUnknownPrincipal as bytes in an SSHPacket"""
 
-        return super().encode(version) + \
-            b''.join(String(name) for name in self.unknown_names)
+        result = super().encode(version)
+
+        if version >= 5:
+            result += b''.join(String(name) for name in self.unknown_names)
+
+        return result
 
     def decode(self, packet: SSHPacket) -> None:
         """Decode error-specific data"""
